@@ -411,5 +411,37 @@ def r09_4(ctx):
                     "`val == 1` ValueError / compare wrongly with visibility", f.loc(), value_set=sorted(worst))
 
 
+def r09_5(ctx):
+    """R09.5 accepted trees evaluate without ValueError: every int()/float() conversion of a symbol value in the
+    evaluators is a checked conversion (validity predicate, handler, or a value validated when it was stored) - a range
+    bound or `set` value may be any symbol, including non-numeric ones."""
+    from .common import checked_conversions
+    checked_conversions(ctx, [f"{CORE}:Symbol.str_value"])
+    repo = ctx.repo
+    ev = repo.func(f"{CORE}:expr_value")
+    construct = "expr_value/number conversion failures fall back to string comparison"
+    tries = [n for n in ast.walk(ev.node) if isinstance(n, ast.Try) and any("_sym_to_num" in ast.unparse(b) for b in n.body)]
+    ok = bool(tries) and any("ValueError" in ast.unparse(h.type) for h in tries[0].handlers if h.type is not None)
+    (ctx.ok(construct, ev.loc(tries[0]) if tries else ev.loc()) if ok else ctx.bad(construct, "_sym_to_num is called outside a ValueError handler", ev.loc()))
+    f = repo.func(f"{CORE}:_depend_on")
+    construct = "_depend_on/self-dependencies are registered too"
+    fl = Flow(f.node).run()
+    sc, ex = [a.arg for a in f.node.args.args][:2]
+    leaf = [n for n in ast.walk(f.node) if isinstance(n, ast.Call) and ast.unparse(n.func) == f"{ex}._dependents.add"]
+    gs = fl.guards_at(leaf[0]) if leaf else set()
+    bad = [g for g in (gs or set()) if sc in g[0].replace(f"{ex}.is_constant", "")]
+    (ctx.bad(construct, f"the edge is skipped under {bad}: a symbol that depends directly on itself has no self-edge for the loop check to find", f.loc(leaf[0]))
+     if bad else ctx.ok(construct, f.loc(leaf[0]) if leaf else f.loc(), nontrivial=False))
+    g = repo.func(f"{CORE}:_check_dep_loop_choice")
+    construct = "_check_dep_loop_choice/in-progress members are not skipped"
+    fg = Flow(g.node, resolver=Resolver(g.node)).run()
+    calls = [n for n in ast.walk(g.node) if isinstance(n, ast.Call) and ast.unparse(n.func) == "_check_dep_loop_sym"]
+    bad = []
+    for c in calls:
+        bad += [x for x in (fg.guards_at(c) or set()) if "_visited" in x[0] and "choice" not in x[0].split("._visited")[0].split(".")[-1] and not x[0].startswith(g.node.args.args[0].arg + "._visited")]
+    (ctx.bad(construct, f"member visits are guarded by {bad}: a loop that closes on a member still on the search stack is not reported", g.loc(calls[0]))
+     if bad else ctx.ok(construct, g.loc(calls[0]) if calls else g.loc(), nontrivial=False))
+
+
 def rules():
-    return [("R09.1", r09_1, 14), ("R09.1b", r09_1b, 3), ("R09.2", r09_2, 6), ("R09.3", r09_3, 8), ("R09.4", r09_4, 5)]
+    return [("R09.1", r09_1, 14), ("R09.1b", r09_1b, 3), ("R09.2", r09_2, 6), ("R09.3", r09_3, 8), ("R09.4", r09_4, 5), ("R09.5", r09_5, 10)]
